@@ -205,6 +205,7 @@ def rebuild(rng, v):
 SPEC = {
     'lean': ['C06'],
     'cases': cases,
+    'big': True,
     'stream': 'C06 equality / dictionary stream',
     'rule': 'ㄴ on value pairs / triples: strings that are canonically / compatibility equivalent but spelled with different code points (가 vs ᄀ+ᅡ, é vs e+◌́, Å / Å / A+◌̊, 豈 / 豈, a / ａ); numeric neighbourhoods (base, base+1, base+0.25, next floats up / down, base·(1+5e-10), each as Integer / Float / Complex with zero and tiny imaginary part, also as dictionary keys); all pairs from a 60-value adversarial pool (integers colliding under the host hash: '
             '−1/−2, n ± k(2^61−1), dyadic fractions vs powers of two, ints at 2^53±1 vs floats, equal int/float/complex) '
